@@ -241,7 +241,59 @@ def g_valuation(rng, ints):
     return st
 
 
+def implicit_cases():
+    """the rarely used implicit-solve statement through every pass: it is not a kind of the Lean model; what the passes
+    may and may not do to it is checked on the real output (the variables it assigns stay the variables it assigns,
+    what it reads of a variable it also writes goes through the copy-in temporary, its guard and id stay)"""
+    for pass_name in PASSES:
+        for guarded in (False, True):
+            for assignee, solve in (("y", "s"), ("<p>y", "s"), ("y", "y_new")):
+                yield {"op": None, "tag": "implicit-solve", "pass": pass_name,
+                       "implicit": {"assignee": assignee, "solve": solve, "guarded": guarded}}
+
+
+def run_implicit(case):
+    from pymbolic import var
+    from dagrt.codegen.dag_ast import Block, StatementWrapper, get_statements_in_ast
+    from dagrt.language import Assign, AssignImplicit
+    spec = case["implicit"]
+    y, s_ = spec["assignee"], spec["solve"]
+    cond = var("fl") if spec["guarded"] else True
+    st0 = Assign(id="init", assignee="h", assignee_subscript=(), expression=var("<dt>") * 2, depends_on=frozenset())
+    st1 = AssignImplicit(assignees=(y,), solve_variables=(s_,), expressions=(var(s_) - var(y) - 3 * var("h"),),
+                         other_params={"guess": var(y)}, solver_id="solver", id="solve", depends_on=frozenset(["init"]),
+                         condition=cond)
+    ast = Block(StatementWrapper(st0), StatementWrapper(st1))
+    new = apply_real(case["pass"], ast)
+    stmts = list(get_statements_in_ast(new))
+    imp = [x for x in stmts if isinstance(x, AssignImplicit)]
+    return {"n_implicit": len(imp),
+            "assignees": [list(x.assignees) for x in imp], "ids": [x.id for x in imp],
+            "conds": [str(x.condition) for x in imp],
+            "others": [[x.id, sorted(x.get_written_variables()), str(x.condition)] for x in stmts if not isinstance(x, AssignImplicit)]}
+
+
+def oracle_implicit(case, out):
+    spec = case["implicit"]
+    if "exc" in out:
+        return {"what": f"pass {case['pass']} raises {out['exc']} on an implicit-solve statement: {out.get('msg')}",
+                "sig": "implicit-raises"}
+    if out["n_implicit"] != 1 or out["ids"] != ["solve"]:
+        return {"what": f"the implicit-solve statement was lost / duplicated / renumbered by {case['pass']}: {out}", "sig": "implicit-lost"}
+    if out["assignees"] != [[spec["assignee"]]]:
+        return {"what": f"{case['pass']}: the implicit solve assigns {out['assignees'][0]} instead of ['{spec['assignee']}'] "
+                        f"(the variable it is written to assign keeps its old value)", "sig": "implicit-assignee"}
+    want = "fl" if spec["guarded"] else "True"
+    if out["conds"] != [want]:
+        return {"what": f"{case['pass']}: guard of the implicit solve changed: {out['conds']}", "sig": "implicit-guard"}
+    for oid, ws, c in out["others"]:
+        if oid != "init" and c != want:
+            return {"what": f"{case['pass']}: statement {oid} derived from the guarded implicit solve has guard {c}", "sig": "guard-not-carried"}
+    return None
+
+
 def cases(rng, tier):
+    yield from implicit_cases()
     n = 1500 if tier == "quick" else 20000
     for k in range(n):
         nodes, ints = g_phase(rng)
@@ -387,6 +439,11 @@ def run_real(case):
 
 
 def impl(case):
+    if case.get("implicit") is not None:
+        try:
+            return run_implicit(case)
+        except Exception as ex:
+            return {"exc": type(ex).__name__, "msg": str(ex)[:120]}
     try:
         ast, new, orders, ex = run_real(case)
     except (ValueError, TypeError, ser.Unsupported) as e:
@@ -514,6 +571,8 @@ def has_lazy_call(j, under=False):
 def oracle(case, out):
     if not isinstance(out, dict) or "dropped" in out:
         return None
+    if case.get("implicit") is not None:
+        return oracle_implicit(case, out)
     if "harness_error" in out:
         return {"what": "the pass could not be applied: " + out["harness_error"] + ": " + out.get("msg", "")}
     if "exc" in out:
